@@ -12,10 +12,12 @@
     _set_owner                  -> `setOwnerRec`
     OpenDocument.rebuild_caches -> `rebuildCaches` (node given) / `rebuildAll` (node None: starts from empty indexes)
     OpenDocument.build_caches   -> `buildCaches`   (`edAppend`, `registerIfStyle`, `fixStyleRef`)
-    __register_stylename        -> `registerStyle` (the 'M'+name rename on collision, `_styles_ooo_fix`) — modelled EXACTLY
+    __register_stylename        -> `registerStyle` (`registeredStyle`; rename to 'M'+name on a clash with a valid entry) — EXACT
+    __registered_style          -> `registeredStyle` (validates an entry: owner, current name, parent; deletes a stale one)
     remove_from_caches          -> `removeFromCaches` (`edDrop`, `dropStyleEntry` per element)
     getElementsByType (document)-> `docByType`     (rebuilds when element_dict == {})
-    getStyleByName              -> `styleByName`   (rebuilds when _styles_dict == {}; the caller passes make_NCName(name))
+    getStyleByName              -> `styleByName`   (rebuild when _styles_dict == {}; `registeredStyle`; else `scanStyles` over the
+                                   style:style index list and register the hit; the caller passes make_NCName(name))
     Element.getElementsByType   -> `elByType` = `getByObj` (the accumulator recursion of _getElementsByObj)
     OpenDocument.__init__ (part)-> `mkDoc`         (topnode.ownerDocument = self; clear_caches())
     __replaceGenerator          -> `replaceGenerator`
@@ -221,6 +223,24 @@ def setOwnerRec (n : Id) (v : Bool) : DM Unit := do
 
 /-! ### build_caches / __register_stylename -/
 
+/-- the parent is office:styles or office:automatic-styles -/
+def underStyles (s : DState) (e : Id) : Bool :=
+  match (s.heap e).parent with
+  | some pp => decide ((s.heap pp).qn = QN_STYLES ∨ (s.heap pp).qn = QN_AUTOSTYLES)
+  | none => false
+
+/-- `__registered_style(name)`: the style registered under `name`, provided it is still in the
+    document, still bears that name and still hangs under office:styles / office:automatic-styles;
+    a stale entry is deleted -/
+def registeredStyle (name : Nat) : DM (Option Id) := fun s =>
+  match sdGet s.sdict name with                                             -- s = self._styles_dict.get(name)
+  | none => (s, .ok none)
+  | some x =>
+    if s.owned x && (lookupAttr KEY_STYLE_NAME (s.heap x).attrs == some name) && underStyles s x then
+      (s, .ok (some x))
+    else                                                                    -- not owned / other name / parent not a style section:
+      ({ s with sdict := sdDel s.sdict name }, .ok none)                    --   del self._styles_dict[name]; s = None
+
 /-- `__register_stylename(elt)`.  (`elt.parentNode.qname` of a parentless node would be an
     AttributeError in Python; build_caches is only ever called on nodes below an attached parent, or
     on the top node, which is not a style:style — the model simply does nothing there.) -/
@@ -233,11 +253,12 @@ def registerStyle (x : Id) : DM Unit := do
     | some pp =>
       let pq ← rdD fun s => (s.heap pp).qn
       if pq = QN_STYLES ∨ pq = QN_AUTOSTYLES then                           -- parent is office:styles / automatic-styles
-        if (← rdD fun s => (sdGet s.sdict name).isSome) then                -- if name in self._styles_dict:
+        let cur ← registeredStyle name
+        if cur ≠ none ∧ cur ≠ some x then                                   -- if self.__registered_style(name) not in (None, elt):
           updD fun s => { s with fix := storeAttr name (mName name) s.fix } --   _styles_ooo_fix[name] = 'M'+name
           updD fun s => { s with heap := setAttrs s.heap x (storeAttr KEY_STYLE_NAME (mName name) (s.heap x).attrs) }
                                                                             --   elt.setAttrNS(STYLENS, 'name', newname)
-          updD fun s => { s with sdict := sdSet s.sdict (mName name) x }    --   _styles_dict[newname] = elt
+          updD fun s => { s with sdict := sdSet s.sdict (mName name) x }    --   _styles_dict[newname] = elt  (may replace an entry)
         else
           updD fun s => { s with sdict := sdSet s.sdict name x }            -- _styles_dict[name] = elt
 
@@ -389,10 +410,25 @@ def docByType (q : Nat) : DM (List Id) := do
   if (← rdD fun s => s.edict.isEmpty) then rebuildAll                        -- if self.element_dict == {}: self.rebuild_caches()
   rdD fun s => edGet s.edict q
 
+/-- the `for e in self.element_dict.get(style:style, [])` loop of getStyleByName: the first element of
+    that name whose parent is office:styles / office:automatic-styles -/
+def scanStyles (s : DState) (n : Nat) : List Id → Option Id
+  | [] => none
+  | e :: r =>
+    if decide (lookupAttr KEY_STYLE_NAME (s.heap e).attrs = some n) && underStyles s e then some e
+    else scanStyles s n r
+
 /-- `doc.getStyleByName(name)`; `n` is the token of `make_NCName(name)` -/
 def styleByName (n : Nat) : DM (Option Id) := do
   if (← rdD fun s => s.sdict.isEmpty) then rebuildAll                        -- if self._styles_dict == {}: self.rebuild_caches()
-  rdD fun s => sdGet s.sdict n
+  match (← registeredStyle n) with                                           -- result = self.__registered_style(ncname)
+  | some e => pure (some e)
+  | none =>                                                                  -- if result is None: for e in element_dict.get(style, []): …
+    match (← rdD fun s => scanStyles s n (edGet s.edict QN_STYLE)) with
+    | some e => do
+      updD fun s => { s with sdict := sdSet s.sdict n e }                    --   self._styles_dict[ncname] = result = e; break
+      pure (some e)
+    | none => pure none
 
 /-- `__replaceGenerator()`: `g`, `t` are the ids of the new generator element and its Text node -/
 def replaceGenerator (mt g t : Id) : DM Unit := do
